@@ -171,6 +171,12 @@ func (e *Engine) SelectTag(next bool) {
 		return
 	}
 
+	// There might be no candidate left in any group
+	// (eg. filtered out by the incremental search).
+	if e.Matches() == 0 {
+		return
+	}
+
 	// If the completion candidate is not empty,
 	// it's also inserted in the line, so remove it.
 	if len(e.selected.Value) > 0 {
